@@ -201,7 +201,10 @@ fn try_to_find_node_by_xml_name_in_xml_doc<'n>(
 
     // iterate over all subsequent nodes in the XML tree to find the node with the given name
     for node in start_node.descendants() {
-        if node.is_element() {
+        // only global components (the children of a schema) can be the target of a reference;
+        // a local element or attribute that happens to carry the same name is not
+        let is_global = node.parent().is_some_and(|p| p.tag_name().name() == "schema");
+        if node.is_element() && is_global {
             // do a quick check on the name of the node, so we can skip the more expensive try_from_node
             if let Some(node_name) = node.attribute("name") {
                 let (node_name, _node_namespace) = resolve_type(node_name, doc);
